@@ -1,9 +1,4 @@
-import Driver.Util
+import Driver.RpcTrace
 namespace Driver.C10
-open Mtv Driver
-
-/-- operations of property C10; not built yet -/
-def handle : List String → String
-  | _ => "bad-op"
-
+def handle (toks : List String) : String := Driver.RpcTrace.handle "c10" toks
 end Driver.C10
